@@ -70,7 +70,7 @@ def run(ctx):
     from ..harness import fresh_dir, drop_dir
     wd = fresh_dir("c14")
     SingleSnapshot, Snapshots = gc.records()
-    n = ctx.n(400, 1500)
+    n = ctx.n(1200, 1500)
     for i in range(n):
         rng = ctx.rng()
         T = int(rng.choice([1, 2, 3, 4, 5, 6, 8, 10, 3, 6, 17, 40]))
